@@ -120,7 +120,7 @@ SimNext ==
   ELSE
   \/ (~Manual /\ (SweepExpire \/ SweepRemove)) /\ w' = 0
   \/ \E s \in 1..(IF Manual THEN 12 ELSE 1) : ExpirePhase2 /\ w' = s
-  \/ \E s \in 1..(IF Manual THEN 3 ELSE 1) : ExpirePhase1 /\ w' = s
+  \/ \E s \in 1..(IF Manual /\ Candidates(now) # {} THEN 4 ELSE 1) : ExpirePhase1 /\ w' = s
   \/ \E s \in 1..5 : Tick /\ w' = s
   \/ \E s \in 1..6 : SimPublish(s) /\ w' = s
   \/ \E s \in 1..2 : SimCasHit(s) /\ w' = s
